@@ -429,8 +429,14 @@ func (s *genState) genCall(ci int) Call {
 			cl.Pass = append(cl.Pass, j)
 		}
 	}
-	if len(cl.Pass) == 0 {
+	if len(cl.Pass) == 0 && r.Chance(1, 2) {
 		cl.Pass = append(cl.Pass, len(cl.Script)-1)
+	}
+	if r.Chance(1, 16) {
+		// a call WITHOUT options (round 6: the empty option list; until then every call passed at least one): nothing
+		// may reach any node of it - in particular nothing of the other call on the same compiled graph, which runs
+		// before it or beside it with options of its own - and no designation can be bad
+		cl.Pass = nil
 	}
 	if r.Chance(1, 4) {
 		perm := r.Perm(len(cl.Pass))
@@ -440,7 +446,7 @@ func (s *genState) genCall(ci int) Call {
 		}
 		cl.Pass = np
 	}
-	if r.Chance(1, 20) {
+	if len(cl.Pass) > 0 && r.Chance(1, 20) {
 		cl.Pass = append(cl.Pass, cl.Pass[r.Intn(len(cl.Pass))]) // the same option twice
 	}
 	return cl
